@@ -39,7 +39,7 @@ func TestC06Release(t *testing.T) {
 		types = chanmc.AllTypes
 	}
 	for i, typ := range types {
-		sp = append(sp, chanmc.Space{Dev: -1, P: chanmc.Params{Type: typ, OpenerB: i%2 == 1, MaxCuts: 2, CutOnlyInSync: true, NoDLP: i%2 == 0, Script: []chanmc.Intent{
+		sp = append(sp, chanmc.Space{Dev: -1, P: chanmc.Params{Type: typ, OpenerB: i%2 == 1, MaxCuts: 2, CutOnlyInSync: true, NoDLP: i%2 == 0, ProbeLiveReest: true, Script: []chanmc.Intent{
 			{By: 0, Amt: 50_000_000, Fate: "settle"}, {By: 1, Amt: 60_000_001, Fate: "settle"},
 		}}})
 	}
